@@ -42,16 +42,16 @@ type item struct {
 }
 
 type stream struct {
-	id         string
-	q          []item
-	lastAt     time.Time
-	reader     *recvStream
-	writer     *sendStream
-	deleted    bool
-	script     []Decision // per-message decisions, consumed in order while armed
-	ord        int
-	failSends  int // fail the next n Send calls on this stream
-	failRecvs  int
+	id        string
+	q         []item
+	lastAt    time.Time
+	reader    *recvStream
+	writer    *sendStream
+	deleted   bool
+	script    []Decision // per-message decisions, consumed in order while armed
+	ord       int
+	failSends int // fail the next n Send calls on this stream
+	failRecvs int
 }
 
 // Relay is the shared relay state.
@@ -454,7 +454,7 @@ func (s *recvStream) Recv() (*hashmailrpc.CipherBox, error) {
 	}
 }
 
-func (s *recvStream) CloseSend() error              { return nil }
+func (s *recvStream) CloseSend() error             { return nil }
 func (s *recvStream) Header() (metadata.MD, error) { return nil, nil }
 func (s *recvStream) Trailer() metadata.MD         { return nil }
 func (s *recvStream) Context() context.Context     { return s.ctx }
